@@ -280,9 +280,12 @@ pub fn c18_l2_receivers_independent() {
 // (CBMC --nondet-static).  hpke has no mutable statics, so on the real tree this changes nothing; a
 // hidden global cache, counter or memo (whatever its period or key) starts in an arbitrary state, i.e.
 // after an arbitrary earlier history of library calls in this process, and a result that depends on it
-// differs from the RFC function of the explicit arguments.
-//@h name=c18_l4_static_sender fn=c18_l1_sender_after_sender cbmc=--nondet-static tier=quick mode=func timeout=2400 desc="c18_l1_sender_after_sender with every mutable static of the program (hpke, dependencies, models) initialised to an ARBITRARY value: sender setup still draws exactly Nsk RNG bytes and yields the RFC 9180 enc / key / nonce / exporter secret of its own arguments" bounds="as c18_l1_sender_after_sender, plus all statics nondeterministic"
-//@h name=c18_l4_static_receiver fn=c18_l1_receiver_after_ops cbmc=--nondet-static tier=quick mode=func timeout=2400 desc="c18_l1_receiver_after_ops (receiver setup, opens, export) under arbitrary initial statics" bounds="as c18_l1_receiver_after_ops, plus all statics nondeterministic"
-//@h name=c18_l4_static_export fn=c18_l2_export_two_contexts cbmc=--nondet-static tier=quick mode=func also=C11 timeout=1200 desc="c18_l2_export_two_contexts under arbitrary initial statics: a global export cache or memo in ANY state cannot change an exported value" bounds="as c18_l2_export_two_contexts, plus all statics nondeterministic"
-//@h name=c18_l4_static_seal fn=c18_l2_contexts_independent cbmc=--nondet-static tier=quick mode=func timeout=2400 desc="c18_l2_contexts_independent (seal on coexisting contexts) under arbitrary initial statics" bounds="as c18_l2_contexts_independent, plus all statics nondeterministic"
-//@h name=c18_l4_static_open fn=c18_l2_receivers_independent cbmc=--nondet-static tier=quick mode=func timeout=1200 desc="c18_l2_receivers_independent (open on coexisting contexts) under arbitrary initial statics" bounds="as c18_l2_receivers_independent, plus all statics nondeterministic"
+// differs from the RFC function of the explicit arguments.  The counterexample is a valuation of
+// static state; Kani's playback cannot set statics, so these entries are `replay=log` (the CBMC log with
+// the failing checks is the artefact) - a native demonstration would need the call history that leads
+// to that state (65 536 contexts for the round-3 seed).
+//@h name=c18_l4_static_sender fn=c18_l1_sender_after_sender cbmc=--nondet-static replay=log tier=quick mode=func timeout=2400 desc="c18_l1_sender_after_sender with every mutable static of the program (hpke, dependencies, models) initialised to an ARBITRARY value: sender setup still draws exactly Nsk RNG bytes and yields the RFC 9180 enc / key / nonce / exporter secret of its own arguments" bounds="as c18_l1_sender_after_sender, plus all statics nondeterministic"
+//@h name=c18_l4_static_receiver fn=c18_l1_receiver_after_ops cbmc=--nondet-static replay=log tier=quick mode=func timeout=2400 desc="c18_l1_receiver_after_ops (receiver setup, opens, export) under arbitrary initial statics" bounds="as c18_l1_receiver_after_ops, plus all statics nondeterministic"
+//@h name=c18_l4_static_export fn=c18_l2_export_two_contexts cbmc=--nondet-static replay=log tier=quick mode=func also=C11 timeout=1200 desc="c18_l2_export_two_contexts under arbitrary initial statics: a global export cache or memo in ANY state cannot change an exported value" bounds="as c18_l2_export_two_contexts, plus all statics nondeterministic"
+//@h name=c18_l4_static_seal fn=c18_l2_contexts_independent cbmc=--nondet-static replay=log tier=quick mode=func timeout=2400 desc="c18_l2_contexts_independent (seal on coexisting contexts) under arbitrary initial statics" bounds="as c18_l2_contexts_independent, plus all statics nondeterministic"
+//@h name=c18_l4_static_open fn=c18_l2_receivers_independent cbmc=--nondet-static replay=log tier=quick mode=func timeout=1200 desc="c18_l2_receivers_independent (open on coexisting contexts) under arbitrary initial statics" bounds="as c18_l2_receivers_independent, plus all statics nondeterministic"
